@@ -41,6 +41,12 @@ class Ctx:
         self.cov["evaluations"] += behaviours
         self.cov["distinct_nontrivial"] += distinct
         self.cov["drift"] += len(tv.drifts)
+        mech = getattr(tv, "mech", [0, 0, 0, 0])
+        if mech[0]:
+            mp = self.cov.setdefault("search_mechanism_predictions", {"steps_predicted_by_LookupCore": 0, "searches": 0,
+                                                                      "searches_drifted": 0, "searches_through_a_std_binary_search_tie": 0})
+            for k, v in zip(list(mp), mech):
+                mp[k] += v
         self.cov["tv_runs"].append({"trace": name, "lines": tv.nlines, "behaviours": behaviours,
                                     "distinct": distinct, "accepted": tv.accepted,
                                     "drift_reports": len(tv.drifts), "wall_s": round(tv.res.wall, 1)})
